@@ -25,7 +25,7 @@ use scrypto_test::prelude::*;
 use std::collections::{BTreeMap, BTreeSet};
 use std::rc::Rc;
 use vf_core::{Check, Failure, Gen, Outcome, Part};
-use vf_eng_c::pup::*;
+use radix_transactions::manifest::*;
 use vf_sbor::valgen::mutate_bytes;
 use vf_world::*;
 
@@ -126,6 +126,15 @@ pub fn judge(run: &Run, w: &World, route: &str, allow_test_panic: bool, describe
         }
     }
     Ok(Verdict { class, reached, committed })
+}
+
+/// Development aid: `VF_E_DEBUG=<part of a class name>` prints the cases of that class to stderr.
+pub fn debug_class(class: &str, describe: &dyn Fn() -> String) {
+    if let Ok(d) = std::env::var("VF_E_DEBUG") {
+        if class.contains(&d) {
+            eprintln!("[{}] {}\n", class, describe());
+        }
+    }
 }
 
 /// End-of-case second opinions (sampled): the C05 scan and the repository's checkers.
@@ -268,14 +277,28 @@ impl MB {
 /// Returns the label of the target.
 pub fn add_call(g: &mut Gen, w: &World, ext: &Ext, totals: &Totals, mb: &mut MB) -> &'static str {
     // two-level choice so that small blueprints are not drowned by the resource managers' many methods
-    let t: &Target = if g.chance(2, 3) {
-        let keys: Vec<&(PackageAddress, String)> = ext.by_blueprint.keys().collect();
-        let k = keys[g.index(keys.len())];
-        let v = &ext.by_blueprint[k];
-        &ext.targets[v[g.index(v.len())]]
-    } else {
-        &ext.targets[g.index(ext.targets.len())]
-    };
+    let mut t: &Target = &ext.targets[0];
+    for _ in 0..4 {
+        t = if g.chance(2, 3) {
+            let keys: Vec<&(PackageAddress, String)> = ext.by_blueprint.keys().collect();
+            let k = keys[g.index(keys.len())];
+            let v = &ext.by_blueprint[k];
+            &ext.targets[v[g.index(v.len())]]
+        } else {
+            &ext.targets[g.index(ext.targets.len())]
+        };
+        // methods of blueprints without a global instance (buckets, proofs, worktop, auth zone, plain
+        // vault methods) can only meet a wrong-blueprint receiver here; part `internal` calls them
+        // properly, so they are taken less often
+        let addressable = match t.receiver {
+            None => true,
+            Some((_, true)) => true,
+            Some(_) => t.module != Module::Main || ext.globals.get(&(t.package, t.blueprint.clone())).map(|v| !v.is_empty()).unwrap_or(false),
+        };
+        if addressable || g.chance(1, 4) {
+            break;
+        }
+    }
     let mode = match g.weighted(&[13, 4, 3]) {
         0 => Mode::Typed,
         1 => Mode::Mutant,
@@ -330,7 +353,7 @@ pub fn add_call(g: &mut Gen, w: &World, ext: &Ext, totals: &Totals, mb: &mut MB)
         sub.subst(g, &mut ga.node, s, t.input.map(|(_, id)| id));
     }
     let needs = sub.needs;
-    let args = match to_manifest_value(&ga.node) {
+    let args = match node_to_manifest_value(&ga.node) {
         Some(v) => v,
         None => {
             mb.log.push(format!("{}: generated payload does not decode as a manifest value, replaced by ()", t.label));
@@ -408,6 +431,7 @@ fn calls_case(g: &mut Gen) -> Outcome {
         let mut reached_any = false;
         let mut done = 0usize;
         let mut txs = 0u64;
+        let mut privileged_commit = false;
         while done < n_calls {
             let in_this = 1 + if g.chance(1, 3) { g.below((n_calls - done) as u64) as usize } else { 0 };
             let system = g.chance(1, 6);
@@ -443,6 +467,10 @@ fn calls_case(g: &mut Gen) -> Outcome {
                 Err(f) => return Outcome::Fail(f),
             };
             g.label(v.class);
+            debug_class(v.class, &describe);
+            if system && v.class == "committed success" {
+                privileged_commit = true;
+            }
             let reached = v.reached && !(mb.scaffold_may_fail && v.class != "committed success");
             if reached {
                 reached_any = true;
@@ -460,7 +488,10 @@ fn calls_case(g: &mut Gen) -> Outcome {
         if reached_any {
             g.nontrivial();
         }
-        if g.chance(1, 8) {
+        // the well-formedness scan describes what user transactions can reach; a committed system
+        // transaction may legitimately leave states outside its tables (e.g. TransactionTracker::create
+        // on an allocated address gets the generic-component entity type)
+        if g.chance(1, 8) && !privileged_commit {
             let describe = || history.join("\n");
             if let Err(f) = deep_check(w, &describe) {
                 return Outcome::Fail(f);
@@ -483,6 +514,590 @@ pub fn short_outcome(run: &Run) -> String {
         s.push('…');
     }
     s
+}
+
+// ------------------------------------------------------------------------------------------------
+// calls made by blueprint code (puppet `act` on the vault-holding component)
+
+use vf_eng_c::pup::{marker, script_manifest_args, v_own_lit, v_ref_lit, v_tuple, B};
+use vf_sbor::wire::*;
+
+#[derive(Clone, Debug)]
+enum IRecv {
+    Function,
+    Bucket(usize),
+    Proof(usize),
+    Vault(usize),
+    AuthZone,
+    Global(GlobalAddress),
+}
+
+struct ICall<'a> {
+    t: &'a Target,
+    recv: IRecv,
+    direct: bool,
+    node: Node,
+    mode: Mode,
+    mutation: Option<&'static str>,
+    wrong_blueprint: bool,
+}
+
+fn map_kind_to_scrypto(k: u8) -> u8 {
+    match k {
+        MK_ADDRESS => SK_REFERENCE,
+        MK_BUCKET | MK_PROOF | MK_ADDRESS_RESERVATION => SK_OWN,
+        MK_DECIMAL => SK_DECIMAL,
+        MK_PRECISE_DECIMAL => SK_PRECISE_DECIMAL,
+        MK_NF_LOCAL_ID => SK_NF_LOCAL_ID,
+        MK_EXPRESSION | MK_BLOB => K_ARRAY,
+        other => other,
+    }
+}
+
+struct SlotMap<'a> {
+    buckets: &'a [u8],
+    proofs: &'a [u8],
+    reservations: &'a [u8],
+    blobs: &'a IndexMap<Hash, Vec<u8>>,
+    refs: Vec<NodeId>,
+}
+
+fn own_body(slot: Option<&u8>, fallback: u32) -> Vec<u8> {
+    match slot {
+        Some(s) => placeholder(*s).0.to_vec(),
+        None => {
+            let mut b = [0u8; 30];
+            b[0] = 0b1111_1000;
+            b[26..30].copy_from_slice(&fallback.to_le_bytes());
+            b.to_vec()
+        }
+    }
+}
+
+/// What the transaction processor does to call arguments: manifest values become Scrypto values
+/// (buckets / proofs / reservations become the owned nodes, addresses become references).
+fn manifest_node_to_scrypto(n: &Node, m: &mut SlotMap) -> Node {
+    match n {
+        Node::Enum { disc, fields } => Node::Enum { disc: *disc, fields: fields.iter().map(|f| manifest_node_to_scrypto(f, m)).collect() },
+        Node::Tuple(fields) => Node::Tuple(fields.iter().map(|f| manifest_node_to_scrypto(f, m)).collect()),
+        Node::Array { ek, elems } => Node::Array { ek: map_kind_to_scrypto(*ek), elems: elems.iter().map(|f| manifest_node_to_scrypto(f, m)).collect() },
+        Node::Map { kk, vk, entries } => Node::Map {
+            kk: map_kind_to_scrypto(*kk),
+            vk: map_kind_to_scrypto(*vk),
+            entries: entries.iter().map(|(k, v)| (manifest_node_to_scrypto(k, m), manifest_node_to_scrypto(v, m))).collect(),
+        },
+        Node::Custom { kind, body } => {
+            let id = || u32::from_le_bytes(body.get(..4).and_then(|b| b.try_into().ok()).unwrap_or([0; 4]));
+            match *kind {
+                MK_ADDRESS => {
+                    if body.len() == 31 && body[0] == 0 {
+                        let mut a = [0u8; 30];
+                        a.copy_from_slice(&body[1..]);
+                        m.refs.push(NodeId(a));
+                        Node::Custom { kind: SK_REFERENCE, body: body[1..].to_vec() }
+                    } else {
+                        // a named address: stands for an address that does not exist yet
+                        Node::Custom { kind: SK_REFERENCE, body: own_body(None, id()) }
+                    }
+                }
+                MK_BUCKET => Node::Custom { kind: SK_OWN, body: own_body(m.buckets.get(id() as usize), id()) },
+                MK_PROOF => Node::Custom { kind: SK_OWN, body: own_body(m.proofs.get(id() as usize), id()) },
+                MK_ADDRESS_RESERVATION => Node::Custom { kind: SK_OWN, body: own_body(m.reservations.get(id() as usize), id()) },
+                MK_EXPRESSION => Node::Array { ek: SK_OWN, elems: vec![] },
+                MK_BLOB => {
+                    let h: Option<[u8; 32]> = body.as_slice().try_into().ok();
+                    Node::Bytes(h.and_then(|h| m.blobs.get(&Hash(h)).cloned()).unwrap_or_default())
+                }
+                MK_DECIMAL => Node::Custom { kind: SK_DECIMAL, body: body.clone() },
+                MK_PRECISE_DECIMAL => Node::Custom { kind: SK_PRECISE_DECIMAL, body: body.clone() },
+                MK_NF_LOCAL_ID => Node::Custom { kind: SK_NF_LOCAL_ID, body: body.clone() },
+                k => Node::Custom { kind: k, body: body.clone() },
+            }
+        }
+        other => other.clone(),
+    }
+}
+
+fn internal_case(g: &mut Gen) -> Outcome {
+    with_world(WORLD_KEY, no_genesis, build, |w| {
+        let ext_rc = w.ext::<Rc<Ext>>().clone();
+        let ext: &Ext = &ext_rc;
+        let totals = Totals::scan(w.db());
+        let n_calls = 1 + g.below(4) as usize;
+        let mut buckets: Vec<ResNeed> = Vec::new();
+        let mut proofs: Vec<ResNeed> = Vec::new();
+        let mut reservations: Vec<(PackageAddress, String)> = Vec::new();
+        let mut blobs: IndexMap<Hash, Vec<u8>> = IndexMap::new();
+        let mut calls: Vec<ICall> = Vec::new();
+        let res_bp = |ext: &Ext, r: &ResourceAddress, f: &str, n: &str| -> String {
+            match ext.res_info(r).map(|i| i.kind.clone()) {
+                Some(ResKind::NonFungible) => n.to_string(),
+                _ => f.to_string(),
+            }
+        };
+        for _ in 0..n_calls {
+            // receiver first, then a method of its blueprint (or, 1 in 6, of any blueprint)
+            let pick_res = |g: &mut Gen| -> ResNeed {
+                let r = g.pick(&ext.resources).address;
+                ResNeed { res: r, amount: *g.pick(&[Amount::Some, Amount::All, Amount::One, Amount::Half, Amount::Smallest, Amount::Zero]), acct: ext.pick_holder(g, &r) }
+            };
+            let (recv, bp): (IRecv, Option<(PackageAddress, String)>) = match g.weighted(&[5, 4, 5, 3, 2, 2]) {
+                0 => {
+                    let need = pick_res(g);
+                    let bp = res_bp(ext, &need.res, FUNGIBLE_BUCKET_BLUEPRINT, NON_FUNGIBLE_BUCKET_BLUEPRINT);
+                    buckets.push(need);
+                    (IRecv::Bucket(buckets.len() - 1), Some((RESOURCE_PACKAGE, bp)))
+                }
+                1 => {
+                    let mut need = pick_res(g);
+                    if need.amount == Amount::Zero {
+                        need.amount = Amount::One;
+                    }
+                    let bp = res_bp(ext, &need.res, FUNGIBLE_PROOF_BLUEPRINT, NON_FUNGIBLE_PROOF_BLUEPRINT);
+                    proofs.push(need);
+                    (IRecv::Proof(proofs.len() - 1), Some((RESOURCE_PACKAGE, bp)))
+                }
+                2 => {
+                    let i = g.index(ext.holder_vaults.len());
+                    let bp = res_bp(ext, &ext.holder_vaults[i].1, FUNGIBLE_VAULT_BLUEPRINT, NON_FUNGIBLE_VAULT_BLUEPRINT);
+                    (IRecv::Vault(i), Some((RESOURCE_PACKAGE, bp)))
+                }
+                3 => (IRecv::AuthZone, Some((RESOURCE_PACKAGE, AUTH_ZONE_BLUEPRINT.to_string()))),
+                4 => {
+                    let a = *g.pick(&ext.components);
+                    let bp = ext.globals.iter().find(|(_, v)| v.contains(&a)).map(|(k, _)| k.clone());
+                    (IRecv::Global(a), bp)
+                }
+                _ => (IRecv::Function, None),
+            };
+            let mut wrong_blueprint = false;
+            let t: &Target = {
+                let own: Vec<usize> = match (&recv, &bp) {
+                    (IRecv::Function, _) => (0..ext.targets.len()).filter(|i| ext.targets[*i].receiver.is_none()).collect(),
+                    (_, Some(k)) => ext.by_blueprint.get(k).cloned().unwrap_or_default().into_iter().filter(|i| ext.targets[*i].receiver.is_some()).collect(),
+                    _ => vec![],
+                };
+                if own.is_empty() || g.chance(1, 6) {
+                    wrong_blueprint = !matches!(recv, IRecv::Function);
+                    &ext.targets[g.index(ext.targets.len())]
+                } else {
+                    &ext.targets[own[g.index(own.len())]]
+                }
+            };
+            let mode = match g.weighted(&[13, 4, 3]) {
+                0 => Mode::Typed,
+                1 => Mode::Mutant,
+                _ => Mode::Raw,
+            };
+            let mut ga = gen_args(g, ext, t, mode);
+            let schema = t.input.and_then(|(h, _)| ext.schema(&t.package, &h));
+            let recv_global = match &recv {
+                IRecv::Global(a) => Some(*a),
+                _ => None,
+            };
+            let bases = Bases { bucket: buckets.len() as u32, proof: proofs.len() as u32, reservation: reservations.len() as u32, named: reservations.len() as u32 };
+            let mut sub = Subst::new(ext, w, t, recv_global.as_ref(), bases);
+            sub.max_owned = 3;
+            {
+                let s = if ga.mode == Mode::Raw { None } else { schema.as_ref().map(|s| s.v1()) };
+                sub.subst(g, &mut ga.node, s, t.input.map(|(_, id)| id));
+            }
+            for mut b in sub.needs.buckets {
+                if b.amount == Amount::TooMuch {
+                    b.amount = Amount::All;
+                }
+                buckets.push(b);
+            }
+            for mut p in sub.needs.proofs {
+                if matches!(p.amount, Amount::TooMuch | Amount::Zero) {
+                    p.amount = Amount::One;
+                }
+                proofs.push(p);
+            }
+            reservations.extend(sub.needs.reservations);
+            for b in sub.needs.blobs {
+                blobs.insert(hash(&b), b);
+            }
+            let direct = matches!(recv, IRecv::Vault(_)) && t.receiver.map(|r| r.1).unwrap_or(false) && g.chance(2, 3);
+            calls.push(ICall { t, recv, direct, node: ga.node, mode: ga.mode, mutation: ga.mutation, wrong_blueprint });
+        }
+        if buckets.len() + proofs.len() > 40 {
+            return Outcome::Discard;
+        }
+        // every proof sits on a bucket of its own
+        let first_proof_bucket = buckets.len();
+        for p in &proofs {
+            // a proof needs a non-empty bucket: fall back to 1 XRD when the account has none of the resource
+            let (bal, _) = account_holding(ext, &totals, p.acct, &p.res);
+            if bal.is_positive() {
+                buckets.push(p.clone());
+            } else {
+                buckets.push(ResNeed { res: XRD, amount: Amount::One, acct: p.acct });
+            }
+        }
+
+        // ---- the script ----
+        let mut b = B::new();
+        let bucket_slots: Vec<u8> = if buckets.is_empty() {
+            vec![]
+        } else {
+            let first = b.op(Op::Import(v_tuple((0..buckets.len()).map(|i| v_own_lit(marker(0, i as u8))).collect())), buckets.len() as u8);
+            (0..buckets.len() as u8).map(|i| first + i).collect()
+        };
+        let mut proof_slots = Vec::new();
+        for j in 0..proofs.len() {
+            let s = b.op(Op::CallMethod { receiver: N::Slot(bucket_slots[first_proof_bucket + j]), method: BUCKET_CREATE_PROOF_OF_ALL_IDENT.into(), args: scrypto_encode(&()).unwrap() }, 2) + 1;
+            proof_slots.push(s);
+        }
+        let mut reservation_slots = Vec::new();
+        for (p, bp) in &reservations {
+            let s = b.op(Op::AllocateAddress { package: *p, blueprint: bp.clone() }, 2);
+            reservation_slots.push(s);
+        }
+        let auth_zone_slot = if calls.iter().any(|c| matches!(c.recv, IRecv::AuthZone)) { Some(b.op(Op::ActorGetNodeId(ACTOR_REF_AUTH_ZONE), 1)) } else { None };
+        let mut opened: Vec<u8> = Vec::new();
+        for i in 0..ext.holder_vaults.len() {
+            if calls.iter().any(|c| matches!(c.recv, IRecv::Vault(x) if x == i)) {
+                let h = b.op(Op::ActorOpenField { state: ACTOR_STATE_SELF, field: i as u8, flags: 0 }, 1);
+                b.op(Op::FieldRead(h), 1);
+                opened.push(h);
+            }
+        }
+        let mut sm = SlotMap { buckets: &bucket_slots, proofs: &proof_slots, reservations: &reservation_slots, blobs: &blobs, refs: Vec::new() };
+        let mut call_ops = Vec::new();
+        let mut log = Vec::new();
+        let mut uses_test_panic = false;
+        for c in &calls {
+            let args = print_payload(Flavour::Scrypto, &manifest_node_to_scrypto(&c.node, &mut sm));
+            let method = c.t.ident.clone();
+            let receiver_text;
+            let op = match &c.recv {
+                IRecv::Function => {
+                    receiver_text = "function".to_string();
+                    Op::CallFunction { package: c.t.package, blueprint: c.t.blueprint.clone(), function: method, args }
+                }
+                other => {
+                    let n = match other {
+                        IRecv::Bucket(i) => {
+                            receiver_text = format!("bucket{}", i);
+                            N::Slot(bucket_slots[*i])
+                        }
+                        IRecv::Proof(j) => {
+                            receiver_text = format!("proof{}", j);
+                            N::Slot(proof_slots[*j])
+                        }
+                        IRecv::Vault(i) => {
+                            receiver_text = format!("own vault {}{}", i, if c.direct { " (direct access)" } else { "" });
+                            N::Lit(ext.holder_vaults[*i].0)
+                        }
+                        IRecv::AuthZone => {
+                            receiver_text = "auth zone".to_string();
+                            N::Slot(auth_zone_slot.unwrap())
+                        }
+                        IRecv::Global(a) => {
+                            receiver_text = format!("global {}", hex::encode(&a.as_node_id().0[..6]));
+                            sm.refs.push(*a.as_node_id());
+                            N::Lit(*a.as_node_id())
+                        }
+                        IRecv::Function => unreachable!(),
+                    };
+                    if c.direct {
+                        Op::CallDirect { receiver: n, method, args }
+                    } else {
+                        match c.t.module {
+                            Module::Main => Op::CallMethod { receiver: n, method, args },
+                            Module::Metadata => Op::CallModuleMethod { receiver: n, module: 1, method, args },
+                            Module::Royalty => Op::CallModuleMethod { receiver: n, module: 2, method, args },
+                            Module::RoleAssignment => Op::CallModuleMethod { receiver: n, module: 0, method, args },
+                        }
+                    }
+                }
+            };
+            if c.t.package == TEST_UTILS_PACKAGE {
+                uses_test_panic = true;
+            }
+            log.push(format!(
+                "CALL {} [{}{}] on {}{} args {}",
+                c.t.label,
+                match c.mode {
+                    Mode::Typed => "typed",
+                    Mode::Mutant => "mutant: ",
+                    Mode::Raw => "raw",
+                },
+                c.mutation.unwrap_or(""),
+                receiver_text,
+                if c.wrong_blueprint { " (method of another blueprint)" } else { "" },
+                render_node(&c.node)
+            ));
+            call_ops.push(op);
+        }
+        // references the frame must be able to see come in through the payload, first of all
+        let mut refs: Vec<NodeId> = Vec::new();
+        for r in sm.refs.iter() {
+            if r.is_global() && !refs.contains(r) {
+                refs.push(*r);
+            }
+        }
+        let mut ops: Vec<Op> = Vec::new();
+        let shift = refs.len() as u8;
+        if !refs.is_empty() {
+            ops.push(Op::Import(v_tuple(refs.iter().map(|n| v_ref_lit(*n)).collect())));
+        }
+        // slots of everything after the first op move up by `shift`
+        fn shift_n(n: &mut N, by: u8) {
+            if let N::Slot(s) = n {
+                *s += by;
+            }
+        }
+        let mut body = b.ops.clone();
+        body.extend(call_ops);
+        for h in &opened {
+            body.push(Op::FieldClose(*h));
+        }
+        for op in body.iter_mut() {
+            match op {
+                Op::CallMethod { receiver, args, .. } | Op::CallModuleMethod { receiver, args, .. } | Op::CallDirect { receiver, args, .. } => {
+                    shift_n(receiver, shift);
+                    *args = shift_placeholders(args, shift);
+                }
+                Op::CallFunction { args, .. } => *args = shift_placeholders(args, shift),
+                Op::FieldRead(h) | Op::FieldClose(h) => *h += shift,
+                _ => {}
+            }
+        }
+        ops.extend(body);
+        ops.push(Op::ReturnLive);
+        let script = Script(ops);
+
+        // ---- the manifest ----
+        let mut mb = MB::default();
+        mb.lock_fee();
+        let auth = g.chance(3, 4);
+        if auth {
+            mb.auth_proofs(w, ext);
+        }
+        mb.scaffold(g, w, ext, &totals, &Needs { buckets: buckets.clone(), ..Default::default() });
+        let method = if g.chance(7, 8) { PUPPET_ACT } else { PUPPET_PEEK };
+        mb.ins.push(InstructionV1::CallMethod(CallMethod { address: ManifestGlobalAddress::Static(ext.holder.into()), method_name: method.to_string(), args: script_manifest_args(&script) }));
+        tail(g, w, &mut mb);
+        let run = w.run(mb.manifest(), all_badges(w));
+        let describe = || format!("[blueprint code {}{}] {} ; {} => {}", method, if auth { ", auth" } else { "" }, mb.log.join(" ; "), log.join(" ; "), short_outcome(&run));
+        let v = match judge(&run, w, "blueprint-code", uses_test_panic, &describe) {
+            Ok(v) => v,
+            Err(f) => return Outcome::Fail(f),
+        };
+        g.label(v.class);
+        debug_class(v.class, &describe);
+        for c in &calls {
+            g.label(match &c.recv {
+                IRecv::Function => "receiver: function",
+                IRecv::Bucket(_) => "receiver: bucket",
+                IRecv::Proof(_) => "receiver: proof",
+                IRecv::Vault(_) => {
+                    if c.direct {
+                        "receiver: own vault, direct access"
+                    } else {
+                        "receiver: own vault"
+                    }
+                }
+                IRecv::AuthZone => "receiver: auth zone",
+                IRecv::Global(_) => "receiver: global component",
+            });
+        }
+        g.count("calls", calls.len() as u64);
+        if v.reached && !mb.scaffold_may_fail {
+            g.nontrivial();
+            if v.class == "committed success" {
+                for c in &calls {
+                    g.label(c.t.label);
+                }
+            } else if calls.len() == 1 {
+                g.label(calls[0].t.label);
+            }
+        }
+        if v.committed && g.chance(1, 8) {
+            if let Err(f) = deep_check(w, &describe) {
+                return Outcome::Fail(f);
+            }
+            g.count("deep checks (C05 scan + repository checkers)", 1);
+        }
+        g.sample(|| describe());
+        Outcome::Pass
+    })
+}
+
+fn count_nodes(n: &Node) -> usize {
+    1 + match n {
+        Node::Enum { fields, .. } | Node::Tuple(fields) => fields.iter().map(count_nodes).sum(),
+        Node::Array { elems, .. } => elems.iter().map(count_nodes).sum(),
+        Node::Map { entries, .. } => entries.iter().map(|(k, v)| count_nodes(k) + count_nodes(v)).sum(),
+        _ => 0,
+    }
+}
+
+fn nth_node<'a>(n: &'a mut Node, k: &mut usize) -> Option<&'a mut Node> {
+    if *k == 0 {
+        return Some(n);
+    }
+    *k -= 1;
+    match n {
+        Node::Enum { fields, .. } | Node::Tuple(fields) => {
+            for f in fields.iter_mut() {
+                if let Some(x) = nth_node(f, k) {
+                    return Some(x);
+                }
+            }
+            None
+        }
+        Node::Array { elems, .. } => {
+            for f in elems.iter_mut() {
+                if let Some(x) = nth_node(f, k) {
+                    return Some(x);
+                }
+            }
+            None
+        }
+        Node::Map { entries, .. } => {
+            for (a, b) in entries.iter_mut() {
+                if let Some(x) = nth_node(a, k) {
+                    return Some(x);
+                }
+                if let Some(x) = nth_node(b, k) {
+                    return Some(x);
+                }
+            }
+            None
+        }
+        _ => None,
+    }
+}
+
+/// One value-level mutation somewhere in a payload tree (the result is still well-formed SBOR).
+fn mutate_tree(g: &mut Gen, root: &mut Node, idents: &[&str]) -> &'static str {
+    let total = count_nodes(root);
+    for _ in 0..8 {
+        let mut k = g.index(total);
+        let Some(n) = nth_node(root, &mut k) else { continue };
+        match n {
+            Node::Bool(b) => {
+                *b = !*b;
+                return "toggle bool";
+            }
+            Node::U8(v) => {
+                *v = v.wrapping_add(1);
+                return "u8 + 1";
+            }
+            Node::U32(v) => {
+                *v = *g.pick(&[0, 1, v.wrapping_add(1), u32::MAX]);
+                return "u32 boundary";
+            }
+            Node::U64(v) => {
+                *v = *g.pick(&[0, 1, v.wrapping_add(1), u64::MAX]);
+                return "u64 boundary";
+            }
+            Node::I64(v) => {
+                *v = *g.pick(&[0, -1, i64::MIN, i64::MAX]);
+                return "i64 boundary";
+            }
+            Node::Str(s) => {
+                *s = match g.below(3) {
+                    0 => g.pick(idents).to_string(),
+                    1 => String::new(),
+                    _ => format!("{}x", s),
+                };
+                return "replace string";
+            }
+            Node::Enum { disc, fields } => {
+                if g.bool() || fields.is_empty() {
+                    *disc = match g.below(3) {
+                        0 => disc.wrapping_add(1),
+                        1 => disc.wrapping_sub(1),
+                        _ => g.u8(),
+                    };
+                    return "change enum discriminator";
+                }
+                fields.pop();
+                return "drop enum field";
+            }
+            Node::Array { elems, .. } => {
+                if elems.is_empty() {
+                    continue;
+                }
+                let i = g.index(elems.len());
+                match g.below(3) {
+                    0 => {
+                        elems.remove(i);
+                        return "remove array element";
+                    }
+                    1 => {
+                        let e = elems[i].clone();
+                        elems.insert(i, e);
+                        return "duplicate array element";
+                    }
+                    _ => {
+                        let j = g.index(elems.len());
+                        elems.swap(i, j);
+                        return "swap array elements";
+                    }
+                }
+            }
+            Node::Bytes(b) => {
+                if b.is_empty() {
+                    b.push(g.u8());
+                } else {
+                    let i = g.index(b.len());
+                    b[i] ^= 1 << g.below(8);
+                }
+                return "flip bit in bytes";
+            }
+            Node::Custom { body, .. } => {
+                if body.is_empty() {
+                    continue;
+                }
+                let i = g.index(body.len());
+                body[i] ^= 1 << g.below(8);
+                return "flip bit in custom value";
+            }
+            _ => continue,
+        }
+    }
+    "no mutation"
+}
+
+/// Moves every placeholder slot in an encoded argument payload up by `by` (the reference import
+/// is placed in front of the script after the arguments were rendered).
+fn shift_placeholders(args: &[u8], by: u8) -> Vec<u8> {
+    if by == 0 {
+        return args.to_vec();
+    }
+    fn walk(v: &mut ScryptoValue, by: u8) {
+        match v {
+            Value::Custom { value: ScryptoCustomValue::Own(o) } => {
+                if o.0 .0[0] == 0xEE && o.0 .0[2..].iter().all(|b| *b == 0) {
+                    o.0 .0[1] = o.0 .0[1].saturating_add(by);
+                }
+            }
+            Value::Custom { value: ScryptoCustomValue::Reference(o) } => {
+                if o.0 .0[0] == 0xEE && o.0 .0[2..].iter().all(|b| *b == 0) {
+                    o.0 .0[1] = o.0 .0[1].saturating_add(by);
+                }
+            }
+            Value::Tuple { fields } | Value::Enum { fields, .. } => fields.iter_mut().for_each(|f| walk(f, by)),
+            Value::Array { elements, .. } => elements.iter_mut().for_each(|f| walk(f, by)),
+            Value::Map { entries, .. } => entries.iter_mut().for_each(|(k, x)| {
+                walk(k, by);
+                walk(x, by)
+            }),
+            _ => {}
+        }
+    }
+    match scrypto_decode::<ScryptoValue>(args) {
+        Ok(mut v) => {
+            walk(&mut v, by);
+            scrypto_encode(&v).unwrap_or_else(|_| args.to_vec())
+        }
+        Err(_) => args.to_vec(),
+    }
 }
 
 // ------------------------------------------------------------------------------------------------
@@ -557,8 +1172,18 @@ fn notarized_case(g: &mut Gen) -> Outcome {
                 // mutate the instruction list, decode, re-sign
                 let mut bytes = manifest_encode(&mb.ins).unwrap();
                 let k = 1 + g.below(3);
-                for _ in 0..k {
-                    what.push(mutate_bytes(g, &mut bytes).to_string());
+                if g.chance(1, 4) {
+                    for _ in 0..k {
+                        what.push(mutate_bytes(g, &mut bytes).to_string());
+                    }
+                } else if let Ok(parsed) = parse_payload(Flavour::Manifest, &bytes) {
+                    // structure-preserving: damage values inside the decoded tree
+                    let mut tree = parsed.tree;
+                    let idents: Vec<&str> = ext.targets.iter().map(|t| t.ident.as_str()).collect();
+                    for _ in 0..k {
+                        what.push(mutate_tree(g, &mut tree, &idents).to_string());
+                    }
+                    bytes = print_payload(Flavour::Manifest, &tree);
                 }
                 let decoded = match vf_core::catch(|| manifest_decode::<Vec<InstructionV1>>(&bytes)) {
                     Ok(d) => d,
@@ -595,6 +1220,7 @@ fn notarized_case(g: &mut Gen) -> Outcome {
             Err(f) => return Outcome::Fail(f),
         };
         g.label(v.class);
+        debug_class(v.class, &describe);
         if run.receipt.is_some() {
             g.label("passed prepare + validate, executed");
             g.nontrivial();
@@ -618,6 +1244,7 @@ pub fn check() -> Check {
     .assume("TestUtils::panic is a native function whose purpose is to panic; its Trap is expected and not judged")
     .assume("host panics raised by the simulator's own `expect` on prepare (payload not encodable as a test transaction) are counted, not judged")
     .part(Part::new("calls", 6000, 400_000, 4096, calls_case))
+    .part(Part::new("internal", 4000, 250_000, 4096, internal_case))
     .part(Part::new("notarized", 3000, 150_000, 4096, notarized_case))
     .min_nontrivial_pct(20.0)
 }
